@@ -418,6 +418,10 @@ pub struct TCase {
   producers: Vec<usize>,
   late_subscriber: bool,
   sched: SchedSpec,
+  /// the producers call `next_by(|v| v + 1)` instead of `next(unique value)`:
+  /// every increment must take effect (no late subscriber in this mode)
+  #[serde(default)]
+  by: bool,
 }
 
 pub struct C12Threads;
@@ -437,11 +441,12 @@ impl Scenario for C12Threads {
       1 => Strategy::Seq { den: 3 },
       _ => Strategy::Pct { d: rng.range(1, 3) as u8, k: 40 },
     };
-    serde_json::to_value(TCase { producers, late_subscriber: np == 1 || rng.chance(2, 3), sched: SchedSpec::Seeded { seed: rng.next_u64(), strategy } }).unwrap()
+    let by = np == 2 && rng.chance(1, 4);
+    serde_json::to_value(TCase { producers, late_subscriber: !by && (np == 1 || rng.chance(2, 3)), sched: SchedSpec::Seeded { seed: rng.next_u64(), strategy }, by }).unwrap()
   }
   fn run(&self, case: &Value) -> Result<Outcome, String> {
     let case: TCase = serde_json::from_value(case.clone()).map_err(|e| e.to_string())?;
-    if case.producers.is_empty() || case.producers.len() > 3 || case.producers.iter().any(|n| *n > 5) {
+    if case.producers.is_empty() || case.producers.len() > 3 || case.producers.iter().any(|n| *n > 5) || (case.by && case.late_subscriber) {
       return Err("bad shape".into());
     }
     let shr = Shared::new();
@@ -456,9 +461,14 @@ impl Scenario for C12Threads {
     for (t, n) in case.producers.iter().enumerate() {
       let mut b = b.clone();
       let n = *n;
+      let by = case.by;
       bodies.push(Box::new(move || {
         for i in 0..n {
-          b.next((t as i64 + 1) * 100 + i as i64);
+          if by {
+            Behavior::<i64, E>::next_by(&mut b, |v| v + 1);
+          } else {
+            b.next((t as i64 + 1) * 100 + i as i64);
+          }
           harness_yield("between-items");
         }
       }));
@@ -476,7 +486,7 @@ impl Scenario for C12Threads {
     }
     let rep = ts.run(bodies);
     let peek = Behavior::<i64, E>::peek(&b);
-    let site = format!("BehaviorSubject<SubjectThreads> producers={}", if case.producers.len() >= 2 { "many" } else { "one" });
+    let site = format!("BehaviorSubject<SubjectThreads> producers={}{}", if case.producers.len() >= 2 { "many" } else { "one" }, if case.by { " next_by" } else { "" });
     let order: Vec<i64> = stable.events().iter().filter_map(|e| if let Ev::Next(Val::I(i)) = e { Some(*i) } else { None }).collect();
     let late_items: Vec<i64> = late.events().iter().filter_map(|e| if let Ev::Next(Val::I(i)) = e { Some(*i) } else { None }).collect();
     let total: usize = case.producers.iter().sum();
@@ -489,7 +499,13 @@ impl Scenario for C12Threads {
       violation = Some(Violation { rule: "c12.panic".into(), site: site.clone(), detail: format!("thread {} panicked: {}", t, m) });
     } else if order.len() != total + 1 || order[0] != 0 {
       violation = Some(Violation { rule: "c12.stable-subscriber".into(), site: site.clone(), detail: format!("stable subscriber saw {:?}, expected the initial value then all {} items", order, total) });
-    } else if {
+    } else if case.by && {
+      let mut have: Vec<i64> = order[1..].to_vec();
+      have.sort();
+      have != (1..=total as i64).collect::<Vec<_>>()
+    } {
+      violation = Some(Violation { rule: "c12.next_by-lost-update".into(), site: site.clone(), detail: format!("{} calls of next_by(|v| v + 1) from {} threads, starting from 0: the subscribers saw {:?} - an increment was applied to a value that was no longer the most recent one (peek() = {})", total, case.producers.len(), order, peek) });
+    } else if !case.by && {
       let mut want: Vec<i64> = case.producers.iter().enumerate().flat_map(|(t, n)| (0..*n).map(move |i| (t as i64 + 1) * 100 + i as i64)).collect();
       let mut have: Vec<i64> = order[1..].to_vec();
       want.sort();
@@ -557,7 +573,7 @@ pub fn check_def() -> PropertyCheck {
     id: "C12",
     scenarios: vec![Box::new(C12Des), Box::new(C12Threads)],
     runs: (250_000, 12_000_000),
-    rule: "DES case = flavour x initial value x history of <=12 ops (next, next_by, clone, subscribe, unsubscribe-one, peek, complete, error) through up to 3 clones, compared with a (value, live list) model; thread case = 1-2 producer threads x 1-3 items + optional late subscriber thread on BehaviorSubject<_, SubjectThreads> under a seeded lock-level schedule; non-trivial = >=1 subscriber and >=3 ops (DES) / a decision with >1 eligible thread (threads)",
+    rule: "DES case = flavour x initial value x history of <=12 ops (next, next_by, clone, subscribe, unsubscribe-one, peek, complete, error) through up to 3 clones, compared with a (value, live list) model; thread case = 1-2 producer threads x 1-3 items (next of unique values, or - two producers - next_by(+1) where every increment must take effect) + optional late subscriber thread on BehaviorSubject<_, SubjectThreads> under a seeded lock-level schedule; non-trivial = >=1 subscriber and >=3 ops (DES) / a decision with >1 eligible thread (threads)",
     assumptions: vec!["sequentially consistent execution"],
   }
 }
